@@ -254,10 +254,10 @@ impl Mon<T, T> {
             }
         }
         let _ = is_clone_from;
-        // (3b) the destination of an interrupted clone_from: contents unspecified, but it must
-        // still be a map - no key twice, len() == number of iterated entries, every element a
-        // live object, capacity() >= len(), room for its own leftovers - and must not keep
-        // what it held before the call beside what it cloned
+        // (3b) the destination of an interrupted clone_from: contents unspecified (which
+        // elements it holds is not judged), but it must still be a map - no key twice, len() ==
+        // number of iterated entries, every element a live object, capacity() >= len(), room
+        // for its own leftovers
         if let Some(d) = self.limbo.take() {
             let mut seen: BTreeSet<u64> = BTreeSet::new();
             let mut n = 0usize;
@@ -283,9 +283,6 @@ impl Mon<T, T> {
                 }
                 if ledger_state(*kid) != Some(Life::Live) || ledger_state(*vid) != Some(Life::Live) {
                     bad = Some((format!("the destination of the interrupted clone_from holds a dropped object (key {k})"), &["C05"]));
-                }
-                if !before.contains_key(k) {
-                    bad = Some((format!("the destination of the interrupted clone_from still holds key {k}, which it held before the call and the source never had"), &["C11"]));
                 }
             }
             if d.len() != n {
